@@ -3,7 +3,9 @@ package handlers
 import (
 	"context"
 	"fmt"
+	"net"
 	"net/http"
+	"strconv"
 	"time"
 
 	"github.com/thushan/olla/internal/adapter/converter"
@@ -34,9 +36,16 @@ func (s *SecurityAdapters) CreateChainMiddleware() func(http.Handler) http.Handl
 
 		return http.HandlerFunc(func(w http.ResponseWriter, r *http.Request) {
 			if s.securityChain != nil {
+				// Limits are per client address, not per TCP connection: RemoteAddr carries the
+				// ephemeral source port, which would give every new connection a fresh bucket.
+				clientID := r.RemoteAddr
+				if host, _, splitErr := net.SplitHostPort(r.RemoteAddr); splitErr == nil {
+					clientID = host
+				}
+
 				// Create security request from HTTP request
 				secReq := ports.SecurityRequest{
-					ClientID:      r.RemoteAddr, // This would normally be extracted better
+					ClientID:      clientID,
 					Endpoint:      r.URL.Path,
 					Method:        r.Method,
 					BodySize:      r.ContentLength,
@@ -47,8 +56,15 @@ func (s *SecurityAdapters) CreateChainMiddleware() func(http.Handler) http.Handl
 
 				result, err := s.securityChain.Validate(r.Context(), secReq)
 				if err != nil || !result.Allowed {
-					// Write appropriate error response
-					http.Error(w, "Security validation failed", http.StatusForbidden)
+					// Write appropriate error response: a rate-limit refusal is 429, not 403
+					status := http.StatusForbidden
+					if err == nil && result.RateLimit > 0 {
+						status = http.StatusTooManyRequests
+						if result.RetryAfter > 0 {
+							w.Header().Set("Retry-After", strconv.Itoa(result.RetryAfter))
+						}
+					}
+					http.Error(w, "Security validation failed", status)
 					return
 				}
 			}
